@@ -69,6 +69,17 @@ def special_terms():
     add("chem", row(el("msub", mi("H"), mn("2")), mi("O")))
     add("chem2", row(mi("Na"), mi("Cl"), mo("+"), el("msub", mi("H"), mn("2")), mi("S"), el("msub", mi("O"), mn("4")), mo("→"), mi("x")))
     add("chem-charge", row(el("msup", mi("Ca"), row(mn("2"), mo("+"))), mo("+"), el("msubsup", mi("SO"), mn("4"), row(mn("2"), mo("−")))))
+    # more chemistry: states of matter (as subscripts and in line), ion with a state, isotope with prescripts, bonds, equilibrium with conditions,
+    # hydrate, structural formula, electron configuration
+    add("chem-state-sub", row(el("msubsup", mi("Na"), mi("aq"), mo("+")), mo("+"), el("msub", mi("Cl"), row(mo("("), mi("aq"), mo(")")))))
+    add("chem-state-inline", row(el("msub", mi("H"), mn("2")), mi("O"), mo("("), mi("l"), mo(")"), mo("→"), el("msub", mi("H"), mn("2")), mi("O"), mo("("), mi("g"), mo(")")))
+    add("chem-state-mtext", row(mi("Na"), mi("Cl"), mtext("(s)"), mo("→"), el("msup", mi("Na"), mo("+")), mtext("(aq)")))
+    add("chem-isotope", row(el("mmultiscripts", mi("U"), T("mprescripts"), mn("92"), mn("235")), mo("+"), el("mmultiscripts", mi("n"), T("mprescripts"), mn("0"), mn("1"))))
+    add("chem-bonds", row(mi("H"), mo("-"), mi("C"), mo("≡"), mi("C"), mo("-"), mi("H"), mo("+"), mi("O"), mo("="), mi("C"), mo("="), mi("O")))
+    add("chem-equilibrium", row(el("msub", mi("N"), mn("2")), mo("+"), mn("3"), el("msub", mi("H"), mn("2")), el("mover", mo("⇌"), mtext("heat")), mn("2"), mi("N"), el("msub", mi("H"), mn("3"))))
+    add("chem-hydrate", row(mi("Cu"), mi("S"), el("msub", mi("O"), mn("4")), mo("·"), mn("5"), el("msub", mi("H"), mn("2")), mi("O")))
+    add("chem-paren-group", row(mi("Ca"), el("msub", row(mo("("), mi("O"), mi("H"), mo(")")), mn("2")), mo("+"), mi("Al"), el("msub", row(mo("("), mi("S"), el("msub", mi("O"), mn("4")), mo(")")), mn("3"))))
+    add("chem-electron-config", row(mn("1"), el("msup", mi("s"), mn("2")), mn("2"), el("msup", mi("s"), mn("2")), mn("2"), el("msup", mi("p"), mn("6"))))
     add("number-split", row(mn("1"), mo(","), mn("234"), mo("."), mn("5"), mo("+"), mn("1"), mtext(" "), mn("000")))
     add("number-list", row(mi("f"), mo("("), mn("1"), mo(","), mn("234"), mo(")")))
     add("roman", row(mi("XII"), mo("+"), mn("iv"), mo("="), mtext("XVI")))
